@@ -73,6 +73,7 @@ GENERAL_PDDL_KEYWORDS = {
     "exists",
     "scale-up",
     "scale-down",
+    "assign",
     "increase",
     "decrease",
     "derived",
@@ -84,6 +85,7 @@ GENERAL_PDDL_KEYWORDS = {
     "minimize",
     "maximize",
     "total-time",
+    "total-cost",
     "strips",
     "negative-preconditions",
     "typing",
@@ -102,6 +104,8 @@ GENERAL_PDDL_KEYWORDS = {
     "contingent",
     "time",
     "continuous-effects",
+    "oneof",
+    "unknown",
 }
 
 TEMPORAL_PDDL_KEYWORDS = {
